@@ -825,8 +825,27 @@ func c11RunAll(scs []c11Scenario, keys []eckg.LocalPartySaveData, mods *c11Modul
 
 // ------------------------------------------------------------------ the check
 
-// which guards / equations the property text names (an acceptance of a toy transcript that fails one of them, built from
-// a false statement, is a violation; anything else at toy size is drift)
+// c11JudgeToy: a toy-sized transcript of a named false-statement family must not be accepted, unless the specification
+// accepts it too (challenge 0, a factor that is not small enough for the toy q): returns true in that case.
+func c11JudgeToy(ctx *core.Ctx, l *pcLine, line, rounds int) (degenerate bool) {
+	if !l.Demand {
+		return false
+	}
+	sc := map[string]any{"toy": true, "seed": ctx.Seed, "line": line, "rounds": rounds, "kind": l.Kind, "sys": l.T.Sys}
+	f := l.Vec.failing()
+	switch {
+	case l.Real == "acc" && l.Twin == "acc", l.Real == "panic" && l.Twin == "panic":
+		return true
+	case l.Real == "acc":
+		ctx.Report(fmt.Sprintf("C11:%s:%s:accepted-at-toy-size", l.T.Sys, l.Family),
+			fmt.Sprintf("the real %s verifier ACCEPTS a toy-sized proof for a statement outside the language (%s); the specification's guards/equations that fail on it: %v", l.T.Sys, l.Kind, f), sc)
+	case l.Real == "panic":
+		ctx.Report(fmt.Sprintf("C11:%s:%s:panic-at-toy-size", l.T.Sys, l.Family),
+			fmt.Sprintf("the real %s verifier PANICS on a toy-sized proof for a statement outside the language (%s): %s", l.T.Sys, l.Kind, core.Short(l.Panic, 160)), sc)
+	}
+	return false
+}
+
 func C11(ctx *core.Ctx) error {
 	if err := pcSelfCheck(); err != nil {
 		return core.Inconcl("toy curves: %v", err)
@@ -858,7 +877,22 @@ func C11(ctx *core.Ctx) error {
 			return nil
 		}
 		if _, isToy := probe["toy"]; isToy {
-			return core.Inconcl("toy-size findings are re-run by the quick tier with the same VERIF_SEED (%v)", probe["seed"])
+			// the toy lines are a deterministic function of the seed: regenerate them and present the line again
+			seed, _ := probe["seed"].(float64)
+			line, _ := probe["line"].(float64)
+			rounds, _ := probe["rounds"].(float64)
+			if rounds < 1 {
+				rounds = 4
+			}
+			gen := newPcToyGen(int64(seed)*37 + 11)
+			gen.crafted(int(rounds))
+			if int(line) < 1 || int(line) > len(gen.lines) {
+				return core.Inconcl("replay names toy line %v of %d", line, len(gen.lines))
+			}
+			l := gen.lines[int(line)-1]
+			fmt.Printf("replay toy line %d (%s %s): real verifier %s, specification %s, failing %v\n", int(line), l.T.Sys, l.Kind, l.Real, l.Twin, l.Vec.failing())
+			c11JudgeToy(ctx, l, int(line), int(rounds))
+			return nil
 		}
 		var sc c11Scenario
 		if _, err := core.LoadReplay(ctx.Replay, &sc); err != nil {
@@ -979,19 +1013,8 @@ func C11(ctx *core.Ctx) error {
 			toyMismatch++
 			ctx.Note("drift: toy %s transcript (%s): the real verifier says %s, the harness's transcription %s (failing %v)", l.T.Sys, l.Kind, l.Real, l.Twin, f)
 		}
-		if l.Demand {
-			switch {
-			case l.Real == "acc" && l.Twin == "acc", l.Real == "panic" && l.Twin == "panic":
-				toyDegenerate++ // challenge 0 / not far enough at toy size: the specification accepts it too
-			case l.Real == "acc":
-				ctx.Report(fmt.Sprintf("C11:%s:%s:accepted-at-toy-size", l.T.Sys, l.Family),
-					fmt.Sprintf("the real %s verifier ACCEPTS a toy-sized proof for a statement outside the language (%s); the specification's guards/equations that fail on it: %v", l.T.Sys, l.Kind, f),
-					map[string]any{"toy": true, "seed": ctx.Seed, "line": i + 1, "kind": l.Kind, "sys": l.T.Sys})
-			case l.Real == "panic":
-				ctx.Report(fmt.Sprintf("C11:%s:%s:panic-at-toy-size", l.T.Sys, l.Family),
-					fmt.Sprintf("the real %s verifier PANICS on a toy-sized proof for a statement outside the language (%s): %s", l.T.Sys, l.Kind, core.Short(l.Panic, 160)),
-					map[string]any{"toy": true, "seed": ctx.Seed, "line": i + 1, "kind": l.Kind, "sys": l.T.Sys})
-			}
+		if c11JudgeToy(ctx, l, i+1, ctx.Pick(4, 24)) {
+			toyDegenerate++
 		}
 	}
 	if !toyRes.Accepted {
